@@ -30,6 +30,7 @@ def stageOf (i : Nat) : String → Option (GStage Store Nat)
   | "pass" => some (unitS fun x => [x])
   | "drop" => some (unitS fun x => if x % 2 == 0 then [] else [x])
   | "dup" => some (unitS fun x => [x, x + 1000])
+  | "twice" => some (unitS fun x => [x, x])      -- the README template: the event and an equal copy
   | "expand" => some (unitS fun x => [x + 2000, x, x + 3000])
   | "dropall" => some (unitS fun _ => [])
   | "hold" => some { step := fun s x => (setP s i (getP s i ++ [x]), []),
